@@ -11,7 +11,7 @@ import vlib
 DEVIATIONS = {
     "C04": ["IntTruncIn", "FloatOverflowIn", "SymbolAnyType", "NonNullListNoElemCoerce", "ContainerLiteralUnchecked",
             "DefaultNotCoerced", "Int64KeepsInt32", "RelaxedEnumUnchecked"],
-    "C05": ["IntTruncOut", "NonFiniteOut", "ParseFailLeak", "TypedSliceNoCoerce", "EnumUndeclaredOut"],
+    "C05": ["IntTruncOut", "FloatTruncOut", "NonFiniteOut", "ParseFailLeak", "TypedSliceNoCoerce", "EnumUndeclaredOut"],
 }
 
 # name -> what fails (same wording as the proposal files /verif/proposals/<ID>/<name>.md)
@@ -24,7 +24,8 @@ PROPOSED_KNOWN = {
     "DefaultNotCoerced": ("C04", "an input object field default is filled in as parsed: an Int field defaulted to 42 arrives as int64 instead of int32"),
     "Int64KeepsInt32": ("C04", "an int32 variable value for an Int64 argument is handed over as int32"),
     "RelaxedEnumUnchecked": ("C04", "with ggql.Relaxed a string that is no member of the enum becomes a Symbol and reaches the resolver"),
-    "IntTruncOut": ("C05", "an Int/Int64 result that does not fit is wrapped or truncated instead of null plus error: 1<<33 gives 0, 1.5 gives 1"),
+    "IntTruncOut": ("C05", "an Int/Int64 result that does not fit is wrapped instead of null plus error: 1<<33 for an Int field gives 0, uint64(1<<63) for Int64 gives -9223372036854775808"),
+    "FloatTruncOut": ("C05", "a float with a fraction returned for an Int/Int64 field is truncated instead of null plus error: 1.5 gives 1"),
     "NonFiniteOut": ("C05", "a Float/Float64 result that is not finite is written as +Inf/NaN (not even JSON): 1e300 for Float"),
     "ParseFailLeak": ("C05", "a string that cannot be parsed for Int/Int64/Float/Float64/Boolean/Time stays in data (\"notanint\" for an Int field) next to the error"),
     "TypedSliceNoCoerce": ("C05", "the elements of []string/[]int/[]int64/[]bool/[]float32/[]float64/[]time.Time results are not coerced: []int for [String] gives [1,2]"),
@@ -133,6 +134,32 @@ def enumerate_and_replay(ctx, fams, devs, maxlen):
     return uni, up, res.vecs
 
 
+def replay_negative_control(ctx, up, vecs):
+    """Binding demonstration: a vector whose expectation is flipped must fail the replay."""
+    import copy
+    pick = None
+    for v in vecs:
+        if "expK" in v:
+            continue
+        if ctx.prop == "C04" and v["exp"].get("out") == "call" and v["exp"]["val"]["k"] != "null":
+            pick = copy.deepcopy(v)
+            pick["exp"] = {"out": "reject"}
+            break
+        if ctx.prop == "C05" and v["exp"].get("k") == "num":
+            pick = copy.deepcopy(v)
+            pick["exp"] = {"k": "errnull"}
+            break
+    if pick is None:
+        raise vlib.MachineryError("negative control: no suitable vector")
+    vp = os.path.join(ctx.scratch, "vec-control.json")
+    with open(vp, "w") as fh:
+        json.dump([pick], fh)
+    rep = vlib.run_harness_json(ctx, "coerce", ["replay", "-universe", up, "-vectors", vp], timeout=300)
+    if not [m for m in rep["mismatches"] if not m.get("known")]:
+        raise vlib.MachineryError("negative control: a flipped expectation was not noticed by the replay")
+    ctx.extra["negative_control_replay"] = "flipped expectation rejected"
+
+
 def record_and_judge(ctx, up, devs, n, corrupt=0):
     out = os.path.join(ctx.scratch, "cases.ndjson" if not corrupt else "cases-control.ndjson")
     args = ["record", "-universe", up, "-prop", ctx.prop, "-n", str(n), "-out", out]
@@ -192,6 +219,7 @@ def run(ctx):
     record_and_judge(ctx, up, devs, 30000 if thorough else 3000)
     if thorough:
         record_and_judge(ctx, up, devs, 200, corrupt=7)
+        replay_negative_control(ctx, up, vecs)
     ctx.exhaustive = True
     if ctx.prop == "C04":
         ctx.rule = ("TLC enumerates (spec/MCCoerce.tla, families %s) every input type expression up to wrapper depth 3 over "
